@@ -275,6 +275,39 @@ def _sentinel(ctx: Ctx):
     return sentinel.run_sentinel(ctx.p, "C17.14", ("urwid.widget",), floor=1, only_classes={"AttrMap", "AttrWrap"})
 
 
+def rule_markup_index_guard(ctx: Ctx) -> RuleResult:
+    """_tagmarkup_recurse returns two lists that are *empty* for markup without text (`[]`, nested empty lists).  Where it
+    merges neighbouring attribute runs it reads the first / last element of such lists: every constant subscript of a
+    list local must be dominated by a truthiness test of that very list."""
+    from ..rules.exc import ExcEngine
+    from ..rules.util import cfg_of
+
+    p = ctx.p
+    rr = RuleResult("GUARD", "C17.15", "_tagmarkup_recurse reads x[0] / x[-1] of its run lists only under a truthiness test of x", floor=2)
+    fi = p.func("urwid.util._tagmarkup_recurse")
+    cfg = cfg_of(fi)
+    for node in cfg.nodes:
+        a = node.ast
+        if a is None or node.kind in ("for", "with", "handler"):
+            continue
+        for sub in ast.walk(a):
+            if isinstance(sub, ast.Subscript) and isinstance(sub.value, ast.Name) and isinstance(sub.ctx, (ast.Load, ast.Del)) and (isinstance(sub.slice, ast.Constant) or (isinstance(sub.slice, ast.UnaryOp) and isinstance(sub.slice.operand, ast.Constant))):
+                nm = sub.value.id
+                if nm in fi.params:
+                    continue
+                ok = False
+                for t in cfg.nodes:
+                    if t.kind != "test" or node in ExcEngine._reach_without_edge(cfg, t, "T"):
+                        continue
+                    ops = t.ast.values if isinstance(t.ast, ast.BoolOp) and isinstance(t.ast.op, ast.And) else [t.ast]
+                    if any(isinstance(o, ast.Name) and o.id == nm for o in ops):
+                        ok = True
+                rr.inst(f"{norm(sub, 20)}@{norm(node.stmt, 30)}", True, {"read": norm(sub, 20), "in": norm(node.stmt, 50)})
+                if not ok:
+                    rr.add(finding("GUARD", fi, node.stmt, f"`{norm(sub, 20)}` is read without a truthiness test of `{nm}` on the path: markup elements without text (`[]`) produce empty run lists, so Text(['a', [], 'b']) raises IndexError", construct=f"{norm(sub, 20)} read without testing {nm}"))
+    return rr
+
+
 def run(ctx: Ctx):
     r6 = c02.rule_cut_attr(ctx)
     r6.clause = "C17.6"
@@ -295,13 +328,14 @@ def run(ctx: Ctx):
     from ..rules import pairlen
 
     r12 = pairlen.run_pairlen(ctx.p, "C17.12", ["urwid.canvas.apply_text_layout", "urwid.util.apply_target_encoding"], floor=8)
-    return [rule_palette_order(ctx), rule_palette_notify(ctx), rule_palette_cache(ctx), rule_palette_total(ctx), rule_attrmap(ctx), r6, r7, r8, r9, r10, r11, r12, rule_palette_depth_index(ctx), _sentinel(ctx)]
+    return [rule_palette_order(ctx), rule_palette_notify(ctx), rule_palette_cache(ctx), rule_palette_total(ctx), rule_attrmap(ctx), r6, r7, r8, r9, r10, r11, r12, rule_palette_depth_index(ctx), _sentinel(ctx), rule_markup_index_guard(ctx)]
 
 
 _CM = "urwid/display/common.py"
 _RW = "urwid/display/_raw_display_base.py"
 _HT = "urwid/display/html_fragment.py"
 MUTANTS = [
+    Mut("markup-merge-reads-empty-run-list", "urwid/util.py", "_tagmarkup_recurse", "            if ral and al:", "            if ral:", "GUARD|util._tagmarkup_recurse"),
     Mut("focus-map-getter-by-truthiness", "urwid/widget/attr_map.py", "AttrMap.get_focus_map", "        if self._focus_map is not None:", "        if self._focus_map:", "SENTINEL|widget.attr_map.AttrMap.get_focus_map"),
     Mut("erase-guard-consults-basic-spec", _RW, "urwid.display._raw_display_base.Screen.draw_screen", "            a = self._pal_attrspec.get(a, a)", "            a = self._palette.get(a, (a,))[0]", "TAB|display._raw_display_base.Screen.draw_screen"),
     Mut("ellipsis-attr-run-in-columns", "urwid/canvas.py", "apply_text_layout", "attrrange(s.offs, s.offs, len(tseg))", "attrrange(s.offs, s.offs, s.sc)", "PAIRLEN|canvas.apply_text_layout"),
